@@ -72,12 +72,12 @@ def write_if_changed(path, text):
 # harness
 # ---------------------------------------------------------------------------------------------
 
-def harness_bin(profile="debug", serde=False):
-    tdir = os.path.join(HARNESS, "target-serde" if serde else "target")
+def harness_bin(profile="debug", serde=False, sendsync=False):
+    tdir = os.path.join(HARNESS, "target-serde" if serde else ("target-sendsync" if sendsync else "target"))
     return os.path.join(tdir, profile, "evx-harness")
 
 
-def build_harness(profile="debug", serde=False, hooks=True):
+def build_harness(profile="debug", serde=False, hooks=True, sendsync=False):
     """cargo build of the harness against /repo's working tree. returns (ok, log)"""
     # the lockfile is the repository's own (the locked registry is the only one available offline)
     try:
@@ -92,12 +92,14 @@ def build_harness(profile="debug", serde=False, hooks=True):
         feats.append("hooks")
     if serde:
         feats.append("serde")
+    if sendsync:
+        feats.append("sendsync")
     cmd = ["cargo", "build", "--offline", "--no-default-features"]
     if feats:
         cmd += ["--features", ",".join(feats)]
     if profile == "release":
         cmd.append("--release")
-    cmd += ["--target-dir", "target-serde" if serde else "target"]
+    cmd += ["--target-dir", "target-serde" if serde else ("target-sendsync" if sendsync else "target")]
     rc, out, err = sh(cmd, timeout=1200, cwd=HARNESS)
     if rc != 0 and "Cargo.lock" in err and "lock" in err:
         # lockfile needs the repo's; re-copy and retry once
@@ -106,12 +108,12 @@ def build_harness(profile="debug", serde=False, hooks=True):
     return rc == 0, err
 
 
-def ensure_harness(profile="debug", serde=False):
+def ensure_harness(profile="debug", serde=False, sendsync=False):
     """builds with hooks, falling back to a build without them. returns (ok, hooks_on, log)"""
-    ok, lg = build_harness(profile, serde, hooks=True)
+    ok, lg = build_harness(profile, serde, hooks=True, sendsync=sendsync)
     if ok:
         return True, True, lg
-    ok2, lg2 = build_harness(profile, serde, hooks=False)
+    ok2, lg2 = build_harness(profile, serde, hooks=False, sendsync=sendsync)
     return ok2, False, lg + "\n---- without hooks ----\n" + lg2
 
 
@@ -379,9 +381,9 @@ def build_driver():
 # paired runs
 # ---------------------------------------------------------------------------------------------
 
-def _run_sharded(cmd_for_shard, lines, shards, tag, timeout, env=None):
+def _run_sharded(cmd_for_shard, lines, shards, tag, timeout, env=None, one_per_shard=False):
     os.makedirs(WORK, exist_ok=True)
-    shards = max(1, min(shards, (len(lines) + 199) // 200))
+    shards = max(1, min(shards, len(lines) if one_per_shard else (len(lines) + 199) // 200))
     parts = [lines[i::shards] for i in range(shards)]
     procs = []
     for i, part in enumerate(parts):
@@ -413,8 +415,9 @@ def _run_sharded(cmd_for_shard, lines, shards, tag, timeout, env=None):
     return res, errs
 
 
-def run_impl(lines, profile="debug", serde=False, timeout=900, tag="impl"):
-    return _run_sharded(lambda p: [harness_bin(profile, serde), "run", p], lines, NCPU, tag + profile, timeout)
+def run_impl(lines, profile="debug", serde=False, timeout=900, tag="impl", shards=None):
+    return _run_sharded(lambda p: [harness_bin(profile, serde), "run", p], lines, shards or NCPU, tag + profile, timeout,
+                        one_per_shard=shards is not None)
 
 
 def run_model(lines, timeout=900, tag="model", env_extra=None):
